@@ -164,7 +164,36 @@ def gen_wire():
     return "\n".join(L) + "\n"
 
 
-GENERATORS = {"GenWire.v": gen_wire}
+# ------------------------------------------------------------------------------------------
+# compiler-determined layout (printed by the harness built against the current tree) -> Gen/GenWal.v
+# ------------------------------------------------------------------------------------------
+def harness_consts():
+    import subprocess
+    binary = os.path.join(os.path.dirname(os.path.abspath(__file__)), "..", ".build", "target", "debug", "axv")
+    need(os.path.exists(binary), "harness binary not built (run ./setup.sh)")
+    out = subprocess.run([binary, "consts"], capture_output=True, text=True, timeout=60)
+    need(out.returncode == 0, "axv consts failed")
+    return {k: int(v) for k, v in (l.split() for l in out.stdout.splitlines() if l.strip())}
+
+
+def gen_wal():
+    c = harness_consts()
+    src = read("storage/wal.rs")
+    enum = fn_body(src, r"pub enum RecordType \{", "enum RecordType")
+    tags = re.findall(r"(\w+)\s*=\s*(0x[0-9A-Fa-f]+)\s*,", enum)
+    want = ["Begin", "Commit", "Abort", "End", "Update", "Delete", "Insert", "Create", "Drop", "Alter"]
+    need([a for a, _ in tags] == want, f"RecordType variants changed: {tags}")
+    L = ["(* GENERATED by tools/gen_tables.py from storage/wal.rs and `axv consts` -- do not edit *)",
+         "From Coq Require Import NArith.", "Open Scope N_scope."]
+    for k in ["wal_block_header_size", "wal_block_zero_header_size", "wal_record_header_size", "wal_record_alignment", "wal_block_size"]:
+        need(k in c, f"axv consts lacks {k}")
+        L.append(f"Definition {k} : N := {c[k]}.")
+    for a, v in tags:
+        L.append(f"Definition rt_{a.lower()} : N := {num(v)}.")
+    return "\n".join(L) + "\n"
+
+
+GENERATORS = {"GenWire.v": gen_wire, "GenWal.v": gen_wal}
 
 
 def main(argv):
